@@ -695,6 +695,36 @@ def bezier_record(P, rep, rule="BEZIER.record"):
         else:
             rep.ok(rule, "accept block at %s stores all of %s" % (F.nloc(g) if g else "?", sorted(fs)), F.nloc(g) if g else F.loc, F.qn)
     rep.floor(rule, n, 2, "accept blocks (Cartesian and spherical)")
+    # every section of the curve is examined: the loops over the sections are never left early
+    nl_ = 0
+    for lp in F.walk():
+        if lp.get("k") == "ForStmt" and "control_points.size()" in norm.render(P, lp["c"][1], nocast=True).replace(" ", ""):
+            nl_ += 1
+            early = None
+            for y in F.walk(lp["c"][3]):
+                if y.get("k") in ("BreakStmt", "GotoStmt", "ReturnStmt"):
+                    tgt = None
+                    for a in F.ancestors(y):
+                        if a.get("k") in ("SwitchStmt", "ForStmt", "CXXForRangeStmt", "WhileStmt", "DoStmt"):
+                            if a.get("k") == "DoStmt" and a.get("m"):
+                                continue
+                            tgt = a
+                            break
+                    if y.get("k") == "ReturnStmt":
+                        # the one-shot retry `return closest_point_on_curve_segment(check_point, true)` restarts the whole search
+                        rv_ = sc(y["c"][0]) if y.get("c") else None
+                        if rv_ is not None and rv_.get("k") == "CXXMemberCallExpr" and rv_.get("callee") == F.key:
+                            continue
+                    if y.get("k") != "BreakStmt" or tgt is lp:
+                        early = y
+            if early is not None:
+                rep.violation(rule, "the loop over the curve sections is left by `%s`" % early["k"][:-4].lower(), F.nloc(early), F.qn, "",
+                              "sections after that point are never examined although one of them may hold the closest point",
+                              key="%s|sections-early" % rule, witness="a horseshoe-shaped trench: the far arm passes closer to the query than the near one")
+            else:
+                rep.ok(rule, "section loop at %s examines every section" % F.nloc(lp), F.nloc(lp), F.qn)
+    if nl_ < 2:
+        rep.unknown(rule, "%d loops over the curve sections (2 expected)" % nl_)
     if len(allf) < 5:
         rep.unknown(rule, "only fields %s of the record are ever stored" % sorted(allf))
 
@@ -748,6 +778,29 @@ def kd_structure(P, rep, rule="KD"):
                     problems.append("%s branch: recursion on %s" % (side, rng))
                 if a[3] not in ("!y_axis",):
                     problems.append("%s branch: child searched on axis %s" % (side, a[3]))
+            # the candidate distance is the Euclidean distance sqrt(dx^2 + dy^2): the pruning test compares it with an offset
+            # along one axis, so both must be lengths (not squared lengths)
+            for dv in [x for x in F.walk(blk) if x.get("k") == "VarDecl" and x.get("n") == "distance" and x.get("c")]:
+                symd = norm.Sym(P, F, inline_locals=True)
+                dval = symd(dv["c"][0])
+                nx_, ny_, cx_, cy_ = sp.symbols("NX NY CX CY", real=True)
+                def dh(nd):
+                    su = astq.subscript(nd)
+                    if su is not None:
+                        b_ = sc(su[0]); ix = sc(su[1])
+                        if b_.get("k") == "DeclRefExpr" and b_.get("n") == "node":
+                            return nx_ if (ix.get("v") in (False, 0)) else ny_
+                        if b_.get("k") == "DeclRefExpr" and b_.get("n") == "check_point":
+                            return cx_ if (ix.get("v") in (False, 0)) else cy_
+                    return None
+                symd.hook = dh
+                dval = symd(dv["c"][0])
+                try:
+                    okd = sp.simplify(dval - sp.sqrt((nx_ - cx_) ** 2 + (ny_ - cy_) ** 2)) == 0
+                except Exception:
+                    okd = False
+                if not okd:
+                    problems.append("%s branch: the candidate distance is %s, not sqrt(dx^2+dy^2) (the pruning test compares it with an axis offset)" % (side, str(dval)[:60]))
             upd = [x for x in F.walk(blk) if x.get("k") == "IfStmt" and R(x["c"][0]) in ("(%s>distance)" % best, "(distance<%s)" % best)]
             if len(upd) != 1:
                 problems.append("%s branch: minimum update missing" % side)
